@@ -243,8 +243,28 @@ func c05Monitor(args []string) int {
 		select {
 		case <-done:
 		case <-time.After(30 * time.Second):
-			rep.Violate("search-does-not-terminate", in, "no result 30 s after the limit/stop")
-			s = nil
+			// a depth- or node-limited search has no time bound (without stand-pat the quiescence search of
+			// a rich position can take minutes on a loaded machine): it must end once it is told to stop;
+			// searches that were given a time limit or a stop should have ended long ago
+			timed := sl.TimeControl || stopAfter >= 0
+			stopped := make(chan struct{})
+			go func() { s.StopSearch(); close(stopped) }()
+			ended := false
+			select {
+			case <-done:
+				ended = true
+			case <-time.After(30 * time.Second):
+			}
+			if timed || !ended {
+				rep.Violate("search-does-not-terminate", in, fmt.Sprintf("no result 30 s after the limit/stop; ended after an explicit stop: %v", ended))
+			} else {
+				rep.Stats["slow_untimed_searches_stopped"]++
+			}
+			if !ended {
+				// the engine is still searching with the global configuration: nothing more can be run safely in this process
+				return rep.Emit()
+			}
+			<-stopped
 			continue
 		}
 		rep.Stats["mode_"+mode[:4]]++
@@ -363,7 +383,11 @@ func c07Monitor(args []string) int {
 		r, _, ok := runDepthSearch(p, depth, 120*time.Second)
 		rep.Cases++
 		if !ok {
-			rep.Violate("search-hang", current, "no result after 120 s")
+			rep.Violate("search-hang", current, "no result after 120 s and 30 s after an explicit stop")
+			return rep.Emit()
+		}
+		if r == nil {
+			rep.Stats["slow_searches_stopped"]++
 			continue
 		}
 		if len(legal) == 0 {
